@@ -41,6 +41,7 @@ int main(int argc, char **argv) {
   slusym_assert_true(h_is_perm(perm_c, n), "C10.perm_c.bijection.postordered");
   int_t info = -12345;
   if (failat > 0) slusym_fail_malloc_at(failat);
+  Glu.num_expansions = 0;      /* ?LUMemInit leaves it at 0 until the initial allocation has succeeded: tells a shortage at set-up from one during the factorization */
   F(gstrf)(&opt, &AC, sp_ienv(2), sp_ienv(1), etree, work, (int_t)lwork, perm_c, perm_r, &L, &U, &Glu, &stat, &info);
   slusym_fail_malloc_at(0);
   slusym_note("info", (long)info); slusym_note("expansions", (long)stat.expansions);
@@ -94,7 +95,7 @@ int main(int argc, char **argv) {
   /* lifecycle: everything the factor routine allocated is owned by L, U (and AC); after the caller destroys them nothing remains */
   Destroy_CompCol_Permuted(&AC);
   if (info >= 0 && info <= n) { if (lwork > 0) { Destroy_SuperMatrix_Store(&L); Destroy_SuperMatrix_Store(&U); } else { Destroy_SuperNode_Matrix(&L); Destroy_CompCol_Matrix(&U); } }
-  slusym_heap_assert_clean(mark, info > n ? "C19.factor.no-leak.after-shortage" : "C19.factor.no-leak");
+  slusym_heap_assert_clean(mark, info > n ? (Glu.num_expansions > 0 ? "C19.factor.no-leak.after-inflight-shortage" : "C19.factor.no-leak.after-shortage") : "C19.factor.no-leak");
   StatFree(&stat);
   slusym_done();
   return 0;
